@@ -52,7 +52,8 @@ def check_result(res, predicted, source, emit, case, tp_format="vtl", rop=True):
             probs = [("kind", f"{name}: unexpected object {type(obj).__name__}")]
             bucket = f"{source}/other"
         if probs:
-            emit({"v": "viol", "b": bucket, "mech": "shape/" + probs[0][0], "what": "; ".join(p[1] for p in probs[:3]),
+            cid = (case.get("id") or case.get("gen") or "") if isinstance(case, dict) else ""
+            emit({"v": "viol", "b": bucket, "mech": "shape/" + probs[0][0], "what": f"[{source} {cid}] " + "; ".join(p[1] for p in probs[:3]),
                   "case": case})
         else:
             rec = {"v": "held", "b": bucket}
